@@ -204,8 +204,11 @@ func (f *Fail) Error() string {
 type recKey struct{}
 
 type world struct {
-	poisoned    []string // targets dialed through the DialFunc of a rejected update
-	maxTimerMs  int      // longest recovery timeout / switching delay of any MultiEndpoint configured in this history
+	killedConn  map[*grpc.ClientConn]bool // pool connections the application closed itself in mid-history and the object still holds
+	killedEp    map[string]bool           // endpoints whose pool was closed that way (as good as down until the pool is replaced)
+	realUp      map[string]bool           // reachability of those endpoints
+	poisoned    []string                  // targets dialed through the DialFunc of a rejected update
+	maxTimerMs  int                       // longest recovery timeout / switching delay of any MultiEndpoint configured in this history
 	everNames   map[string]bool
 	props       map[string]bool
 	labels      map[string]int
@@ -394,7 +397,7 @@ func (w *world) contexts() []string {
 func (w *world) open(e string) int {
 	n := 0
 	for _, c := range w.dialed[e] {
-		if c.GetState() != connectivity.Shutdown {
+		if c.GetState() != connectivity.Shutdown || w.killedConn[c] {
 			n++
 		}
 	}
@@ -927,8 +930,13 @@ func Run(c *Case, props map[string]bool) (res Result) {
 			if op.Flip > 0 {
 				// connectivity notifications race with the update
 				e := EPNames[(op.Flip-1)%len(EPNames)]
-				w.up[e] = !w.up[e]
-				all[e].set(w.up[e])
+				if w.killedEp[e] {
+					w.realUp[e] = !w.realUp[e]
+					all[e].set(w.realUp[e])
+				} else {
+					w.up[e] = !w.up[e]
+					all[e].set(w.up[e])
+				}
 				delete(readyBefore, e)
 				w.labels["fault-right-before-update"]++
 				if w.up[e] {
@@ -967,6 +975,18 @@ func Run(c *Case, props map[string]bool) (res Result) {
 			for name, meo := range o.MultiEndpoints {
 				if _, existed := w.mes[name]; !existed && meo.RecoveryTimeout <= 0 && meo.SwitchingDelay > 0 {
 					newDelayOnly[name] = true
+				}
+			}
+			for e := range w.killedEp {
+				if !mentioned(model)[e] {
+					// the update drops the endpoint: the dead pool is let go (its Close() fails, which is only logged), a later
+					// update that names the endpoint again dials a fresh pool
+					delete(w.killedEp, e)
+					for _, c0 := range w.dialed[e] {
+						delete(w.killedConn, c0)
+					}
+					w.up[e] = w.realUp[e]
+					w.labels["dead-pool-dropped-by-an-update"]++
 				}
 			}
 			w.mes, w.def = model, def
@@ -1030,11 +1050,28 @@ func Run(c *Case, props map[string]bool) (res Result) {
 			w.settle("update", "C15")
 			w.checkPools("update")
 			w.labels["update"]++
+		case "extclose":
+			// the application closes the connection of one pool itself (it got it through its DialFunc). The object still
+			// holds that pool: the endpoint is as good as down until an update drops it and a later one dials it again
+			e := EPNames[((op.E%len(EPNames))+len(EPNames))%len(EPNames)]
+			l := w.dialed[e]
+			if len(l) == 0 || l[len(l)-1].GetState() == connectivity.Shutdown || w.killedEp[e] || !mentioned(w.mes)[e] {
+				continue
+			}
+			if w.killedConn == nil {
+				w.killedConn, w.killedEp, w.realUp = map[*grpc.ClientConn]bool{}, map[string]bool{}, map[string]bool{}
+			}
+			c0 := l[len(l)-1]
+			w.killedConn[c0], w.killedEp[e], w.realUp[e] = true, true, w.up[e]
+			w.up[e] = false
+			c0.Close()
+			w.settle(fmt.Sprintf("application closed the pool of %s", e), "C15")
+			w.labels["pool-closed-by-the-application-in-mid-history"]++
 		case "upquick":
 			// the endpoint becomes reachable and the history goes on as soon as its pool is READY (plus Nth ms), without
 			// waiting for routing to follow: a delayed switch to it is still pending when the next operation arrives
 			e := EPNames[((op.E%len(EPNames))+len(EPNames))%len(EPNames)]
-			if w.up[e] {
+			if w.up[e] || w.killedEp[e] {
 				continue
 			}
 			w.up[e] = true
@@ -1051,6 +1088,12 @@ func Run(c *Case, props map[string]bool) (res Result) {
 		case "down", "up":
 			e := EPNames[((op.E%len(EPNames))+len(EPNames))%len(EPNames)]
 			wantUp := op.K == "up"
+			if w.killedEp[e] {
+				// the endpoint's pool was closed by the application: reachability changes nothing until the pool is replaced
+				w.realUp[e] = wantUp
+				all[e].set(wantUp)
+				continue
+			}
 			if w.up[e] == wantUp {
 				continue
 			}
@@ -1175,6 +1218,9 @@ func Run(c *Case, props map[string]bool) (res Result) {
 			extClosed = true
 			w.labels["connection-closed-by-the-application-before-Close"]++
 		}
+	}
+	if len(w.killedEp) > 0 {
+		extClosed = true
 	}
 	if err := gme.Close(); err != nil && !extClosed {
 		// a ClientConn's Close only fails when it was closed before: a pool the object still held was closed already
